@@ -26,8 +26,8 @@ type Op struct {
 	K  string   `json:"k"`            // kind, see kinds below
 	T  []int    `json:"t,omitempty"`  // target body: block indices from the root body (empty = root)
 	N  string   `json:"n,omitempty"`  // attribute name (rename: from)
-	N2 string   `json:"n2,omitempty"` // rename: to
-	V  string   `json:"v,omitempty"`  // value id ("1","s","l") or raw token id ("x.y","1+2")
+	N2 string   `json:"n2,omitempty"` // rename: to; copyraw/copyroot: name of the source attribute
+	V  string   `json:"v,omitempty"`  // value id ("1","s","l","t") or raw token id ("x.y","1+2","7","null",`"q"`)
 	Ty string   `json:"ty,omitempty"` // block type
 	L  []string `json:"l,omitempty"`  // block labels
 	I  int      `json:"i,omitempty"`  // index of the targeted block among the blocks of the target body
@@ -62,6 +62,10 @@ func (o Op) String() string {
 	switch o.K {
 	case "setv", "setraw":
 		return fmt.Sprintf("%s.%s(%s,%s)", t, o.K, o.N, o.V)
+	case "copyraw":
+		return fmt.Sprintf("%s.copyraw(%s<-%s)", t, o.N, o.N2)
+	case "copyroot":
+		return fmt.Sprintf("%s.copyraw(%s<-root.%s)", t, o.N, o.N2)
 	case "settrav", "rm":
 		return fmt.Sprintf("%s.%s(%s)", t, o.K, o.N)
 	case "ren":
@@ -146,9 +150,20 @@ func buildAlphabets() (quick, thorough []Op) {
 		Op{K: "settype", I: 0, Ty: "blk"}, Op{K: "settype", I: 0, Ty: "other"},
 		Op{K: "setlabels", I: 0}, Op{K: "setlabels", I: 0, L: lOne}, Op{K: "setlabels", I: 0, L: lTwo},
 		Op{K: "nl"}, Op{K: "unstruct"},
+		// token sharing: two attributes are given the same one-token Tokens
+		// value / the tokens of another attribute's expression; every
+		// value-setting operation on a, b and c is in this list (setv with a
+		// number, a keyword, a string, a list; setraw; settrav)
+		Op{K: "setraw", N: "a", V: "7"}, Op{K: "setraw", N: "b", V: "7"},
+		Op{K: "copyraw", N: "b", N2: "a"}, Op{K: "copyraw", N: "c", N2: "a"},
+		Op{K: "setv", N: "a", V: "t"},
 	)
 	add(root, false,
 		Op{K: "setraw", N: "a", V: "1+2"}, Op{K: "setraw", N: "c", V: "x.y"},
+		Op{K: "setraw", N: "c", V: "7"}, Op{K: "setraw", N: "a", V: "null"}, Op{K: "setraw", N: "b", V: "null"},
+		Op{K: "setraw", N: "a", V: `"q"`}, Op{K: "setraw", N: "b", V: `"q"`},
+		Op{K: "copyraw", N: "a", N2: "b"}, Op{K: "copyraw", N: "a", N2: "c"}, Op{K: "copyraw", N: "a", N2: "a"},
+		Op{K: "setv", N: "b", V: "t"}, Op{K: "setv", N: "b", V: "s"}, Op{K: "setv", N: "c", V: "t"}, Op{K: "settrav", N: "b"},
 		Op{K: "ren", N: "b", N2: "c"}, Op{K: "ren", N: "c", N2: "b"}, Op{K: "ren", N: "b", N2: "b"}, Op{K: "ren", N: "c", N2: "c"},
 		Op{K: "newblk", Ty: "blk", L: lOne}, Op{K: "newblk", Ty: "other", L: lOne}, Op{K: "newblk", Ty: "other", L: lTwo},
 		Op{K: "settype", I: 1, Ty: "blk"}, Op{K: "settype", I: 1, Ty: "other"},
@@ -161,8 +176,11 @@ func buildAlphabets() (quick, thorough []Op) {
 		Op{K: "newblk", Ty: "blk", L: lOne}, Op{K: "rmblk", I: 0},
 		Op{K: "settype", I: 0, Ty: "other"}, Op{K: "setlabels", I: 0, L: lTwo},
 		Op{K: "nl"},
+		Op{K: "copyraw", N: "c", N2: "a"}, Op{K: "copyroot", N: "b", N2: "a"},
+		Op{K: "setv", N: "a", V: "t"}, Op{K: "setv", N: "c", V: "1"},
 	)
 	add([]int{0}, false,
+		Op{K: "setraw", N: "c", V: "7"}, Op{K: "setraw", N: "a", V: "7"}, Op{K: "copyraw", N: "a", N2: "b"}, Op{K: "setv", N: "b", V: "1"},
 		Op{K: "settrav", N: "c"}, Op{K: "ren", N: "a", N2: "b"}, Op{K: "ren", N: "b", N2: "a"}, Op{K: "rm", N: "c"},
 		Op{K: "appblk", Ty: "other"}, Op{K: "rmforeign"},
 	)
@@ -172,6 +190,7 @@ func buildAlphabets() (quick, thorough []Op) {
 		Op{K: "newblk", Ty: "blk"}, Op{K: "nl"},
 	)
 	add([]int{1}, false,
+		Op{K: "copyraw", N: "c", N2: "b"}, Op{K: "copyraw", N: "c", N2: "a"}, Op{K: "setv", N: "a", V: "t"}, Op{K: "setraw", N: "c", V: "7"},
 		Op{K: "settrav", N: "a"}, Op{K: "ren", N: "a", N2: "c"}, Op{K: "rmblk", I: 0},
 	)
 	// body of the first block nested in block #0
@@ -180,6 +199,7 @@ func buildAlphabets() (quick, thorough []Op) {
 		Op{K: "newblk", Ty: "blk"},
 	)
 	add([]int{0, 0}, false,
+		Op{K: "copyraw", N: "c", N2: "b"}, Op{K: "setv", N: "b", V: "t"}, Op{K: "rm", N: "c"},
 		Op{K: "ren", N: "b", N2: "c"},
 	)
 	return quick, thorough
@@ -194,6 +214,7 @@ type prep struct {
 	body    *refwriter.Body
 	chain   []*refwriter.Item
 	blk     *refwriter.Item // targeted block (rmblk, settype, setlabels, reappend)
+	src     *refwriter.Item // source attribute (copyraw, copyroot)
 	hazard  string          // "" or the name of a known layout hazard of the target body (see FINDINGS.md)
 	appends bool            // the operation adds tokens at the end of the target body
 }
@@ -206,6 +227,20 @@ func prepare(m *refwriter.File, op Op) prep {
 	p := prep{ok: true, body: body, chain: chain}
 	switch op.K {
 	case "setv", "setraw", "settrav":
+		p.appends = body.Attr(op.N) == nil
+	case "copyraw", "copyroot":
+		// offered only where the source attribute exists (GetAttribute of an
+		// absent name is nil, there is nothing to copy)
+		p.src = body.Attr(op.N2)
+		if op.K == "copyroot" {
+			if len(op.T) == 0 {
+				return prep{}
+			}
+			p.src = m.Root.Attr(op.N2)
+		}
+		if p.src == nil {
+			return prep{}
+		}
 		p.appends = body.Attr(op.N) == nil
 	case "newblk", "appblk", "nl", "unstruct":
 		p.appends = true
@@ -263,6 +298,15 @@ func mutate(m *refwriter.File, p prep, op Op) result {
 	case "setv", "setraw", "settrav":
 		text, tag := exprOf(op)
 		p.body.SetAttr(op.N, text, tag)
+		refwriter.Touch(p.chain)
+	case "copyraw", "copyroot":
+		// the target gets the expression the source has now; the source is
+		// only read and the two are unrelated afterwards
+		tag := p.src.Tag
+		if tag == "orig" {
+			tag = "raw"
+		}
+		p.body.SetAttr(op.N, p.src.Expr, tag)
 		refwriter.Touch(p.chain)
 	case "ren":
 		ok := p.body.Rename(op.N, op.N2)
